@@ -266,12 +266,14 @@ json generate(uint64_t seed, uint64_t idx, int tier)
 		steps.push_back(step(cl, "init", 7));
 		static const char *texts[] = {"fn(\"x\")\na = 41\nl += 9\ns = \"after\"\n", "b = on\nvi = 8\na = 42\nsl += {w}\n", "a = 40\ninclude(\"/inc/reentry.conf\")\ns = \"after\"\n",
 					      "include(\"/inc/reentry2.conf\")\na = 44\n"};
-		json ps = parse_step(cl, c, r.chance(1, 4) ? "fp" : "buf", texts[r.below(4)]);
-		static const char *acts[] = {"free_other", "nested_parse", "parse_other"};
-		ps["cbact"] = acts[r.below(3)];
+		unsigned ti = (unsigned)r.below(4);
+		json ps = parse_step(cl, c, r.chance(1, 4) ? "fp" : "buf", texts[ti]);
+		static const char *acts[] = {"free_other", "nested_parse", "parse_other", "set_self"};
+		ps["cbact"] = acts[r.below(ti == 2 ? 3 : 4)]; // set_self touches 'a', which every text but the third assigns after the callback
 		ps["cbact_at"] = 1;
 		ps["cbact_c"] = 7;
 		ps["reentry"] = 1;
+		ps["pin"] = 1; // the expectation is keyed to this text: the minimiser removes the step whole or not at all
 		steps.push_back(ps);
 		steps.push_back(parse_step(cl, c, "buf", "f = 2.25\n"));
 	}
